@@ -75,6 +75,7 @@ def cases(draw, tier="quick"):
         engines.append("numba")
     case["engines"] = engines
     case["layout"] = draw(st.sampled_from([None, None, None, "F", "strided"]))
+    case["as_list"] = draw(st.sampled_from([None, None, None, "by", "both"])) if lab["kind"] != "datetime" else None
     # an explicit dtype= (values must be unaffected apart from the cast; numbagg refuses dtype=)
     if draw(st.integers(0, 4)) == 0 and func not in ("any", "all", "count") and "arg" not in func:
         if "f" in dt or func_is_float(func):
@@ -141,8 +142,13 @@ def execute(case) -> Outcome:
     )
     out.label(f"func={func}", f"dtype={arr.dtype.str}", f"labels={case['by']['dt']}", f"dtype_kw={case.get('dtype')}")
 
+    arr_in, by_in = arr, by
+    if case.get("as_list"):
+        by_in = by.tolist()  # array-likes are documented to be accepted
+        if case["as_list"] == "both":
+            arr_in = arr.tolist()
     for engine in case["engines"]:
-        r = eager_reduce(arr, [by], kw, engine=engine)
+        r = eager_reduce(arr_in, [by_in], kw, engine=engine)
         if r.kind == "refusal":
             out.label(f"refusal:{engine}")
             continue
